@@ -148,7 +148,7 @@ def search(repo):
     """Returns dict(status=..., baseline=<commit>, diffs=[{item, case, props, functions, baseline, current}], wall=s)."""
     t0 = time.time()
     os.makedirs(CACHE, exist_ok=True)
-    key = tree_key(repo)
+    key = tree_key(repo) + '_' + hashlib.sha256((json.dumps(ITEMS, sort_keys=True) + open(HARNESS).read()).encode()).hexdigest()[:10]   # results depend on the item table and the harness too
     cp = os.path.join(CACHE, 'cur_%s.json' % key)
     if os.path.exists(cp):
         return json.load(open(cp))
